@@ -253,6 +253,25 @@ def laws(report, rng, t, inp):
                     report.fail('C10:add-out-of-order:after-delete', 'after a delete, add_segment placed a node of position %r at index %d among positions %r' % (pos[k], k, pos), inp)
             else:
                 report.fail('C10:add-not-placed:after-delete', 'after a delete, add_segment did not put the node under the loop', inp)
+    # L4c re-adding the FIRST segment after every sibling of its position was deleted: it must come first again
+    live = ctx_gen.live_children(t)
+    if len(live) >= 2 and live[0].type == 'seg':
+        p0 = getattr(live[0].x12_map_node, 'pos', None)
+        lows = [x for x in live if getattr(x.x12_map_node, 'pos', None) is not None and x.x12_map_node.pos <= p0]
+        if p0 is not None and len(lows) < len(live) and all(x.type == 'seg' for x in lows):
+            report.count('law:add-first-after-delete')
+            text0 = live[0].seg_data.format()
+            terms0 = (live[0].seg_data.seg_term, live[0].seg_data.ele_term, live[0].seg_data.subele_term)
+            for x in lows:
+                x.delete()
+            import pyx12.segment
+            newn = t.add_segment(pyx12.segment.Segment(text0, *terms0))
+            live2 = ctx_gen.live_children(t)
+            if newn not in live2:
+                report.fail('C10:add-not-placed:first', 'after deleting the leading segments, add_segment did not put the node under the loop', inp)
+            elif live2.index(newn) != 0:
+                report.fail('C10:add-out-of-order:first', 'a segment of the lowest position (%r) was placed at index %d among positions %r' % (
+                    p0, live2.index(newn), [getattr(x.x12_map_node, 'pos', None) for x in live2]), inp)
 
 
 def replay(rp):
